@@ -151,7 +151,7 @@ class Report(object):
         for i in und:
             self.broken.append('undecided: rule %s at %s in %s: %s (%s)' % (i.rule, i.site, i.function, i.what, i.detail))
 
-        ev_dir = os.path.join(env.VERIF, 'evidence')
+        ev_dir = os.environ.get('PARMCB_EVIDENCE_DIR') or os.path.join(env.VERIF, 'evidence')
         os.makedirs(os.path.join(ev_dir, 'replay'), exist_ok=True)
         lines = []
         replays = []
